@@ -129,7 +129,7 @@ def _shape_schemas(C):
     }
 
 
-def _shape_paths(C):
+def _shape_paths(C, comp_param="SharedShape"):
     P = lambda pos: C("Parameter.name@" + pos)
     enm, tgt = _ref("ShapeEnum"), _ref("ShapeTarget")
     params = []
@@ -148,7 +148,7 @@ def _shape_paths(C):
         {"name": P("query-array-inline"), "in": "query", "schema": {"type": "array", "items": {"type": "string"}}},
         {"name": P("query-union"), "in": "query", "schema": {"oneOf": [{"type": "string"}, {"type": "integer"}]}},
         {"name": P("query-date"), "in": "query", "schema": {"type": "string", "format": "date"}},
-        {"$ref": "#/components/parameters/SharedShape"},
+        {"$ref": "#/components/parameters/" + comp_param},
     ]
     pathname = P("path")
     pathenum = P("path-ref-enum")
@@ -210,6 +210,60 @@ def _default_paths(C):
     return {"/defaults": {"get": {"operationId": "defaultsOp", "tags": ["shapes"], "parameters": params, "responses": {"200": {"description": "ok"}}}}}
 
 
+def _x(C, cls, pos=""):
+    """An x- extension value on an object of pydantic class cls (every schema class is declared with extra='allow')."""
+    return {"x-ext": C(cls + ".x-ext" + (("@" + pos) if pos else ""))}
+
+
+def _bare_paths(C):
+    """Fields the generator does not read today, in the configurations where a FALLBACK would pick them up: path items with summary /
+    description whose operations have none (or only one of the two), parameters / request bodies / responses whose descriptions have no
+    competing schema description, free-text response keys, path-item servers, callbacks, examples maps, x- extensions."""
+    ok = lambda lab: {"200": {"description": C("Response.description@" + lab)}}
+    resp_key = C("Components.responses.key")
+    body_key = C("Components.requestBodies.key")
+    return {
+        "/bare/" + C("OpenAPI.paths.key@bare"): {
+            "summary": C("PathItem.summary@bare"), "description": C("PathItem.description@bare"), **_x(C, "PathItem"),
+            "servers": [{"url": C("Server.url@pathitem"), "description": C("Server.description@pathitem")}],
+            "parameters": [{"name": "bq", "in": "query", "description": C("Parameter.description@bare-pathitem"), "schema": {"type": "string"}, **_x(C, "Parameter")}],
+            "get": {
+                "parameters": [{"name": "bh", "in": "header", "description": C("Parameter.description@bare-header"), "schema": {"type": "integer"},
+                                "examples": {C("Parameter.examples.key@bare"): {"value": C("Example.value@bare")}}},
+                               {"name": "bc", "in": "cookie", "description": C("Parameter.description@bare-cookie"), "example": C("Parameter.example@bare"), "schema": {"type": "string"}}],
+                "requestBody": {"description": C("RequestBody.description@bare"), **_x(C, "RequestBody"),
+                                "content": {"application/json": {"schema": {"type": "object", "properties": {"z": {"type": "string"}}, **_x(C, "Schema", "inline")},
+                                                                 "examples": {C("MediaType.examples.key"): {"summary": C("Example.summary@media"), "value": {"z": C("Example.value@media")}}},
+                                                                 **_x(C, "MediaType")}}},
+                "responses": {"200": {"description": C("Response.description@bare"), **_x(C, "Response"),
+                                      "headers": {C("Response.headers.key@bare"): {"description": C("Header.description@bare"), "style": C("Header.style"), "example": C("Header.example"),
+                                                                                    "name": C("Header.name"), "schema": {"type": "string"},
+                                                                                    "examples": {C("Header.examples.key"): {"value": C("Example.value@header")}}}},
+                                      "content": {"application/json": {"schema": {"type": "string"}, "example": C("MediaType.example@response")}}},
+                              "201": {"$ref": "#/components/responses/" + resp_key},
+                              C("Operation.responses.key"): {"description": C("Response.description@free-key")}},
+                "servers": [{"url": C("Server.url@operation")}],
+                "callbacks": {C("Operation.callbacks.key"): {"{$request.body#/z}": {"post": {"responses": ok("callback")}}}},
+                **_x(C, "Operation"),
+            },
+        },
+        "/bare-summary-only": {"summary": C("PathItem.summary@op-has-summary"), "description": C("PathItem.description@op-has-summary"),
+                               "get": {"summary": C("Operation.summary@only"), "responses": ok("summary-only")}},
+        "/bare-description-only": {"summary": C("PathItem.summary@op-has-description"), "description": C("PathItem.description@op-has-description"),
+                                   "put": {"description": C("Operation.description@only"), "requestBody": {"$ref": "#/components/requestBodies/" + body_key},
+                                           "responses": ok("description-only")}},
+        "/bare-param-content": {"get": {"parameters": [{"name": "pc", "in": "query", "content": {C("Parameter.content.key"): {"schema": {"type": "string"}}}}],
+                                        "responses": ok("param-content")}},
+    }, {
+        "responses": {resp_key: {"description": C("Response.description@component"), "content": {"application/json": {"schema": {"type": "string"}}}}},
+        "requestBodies": {body_key: {"description": C("RequestBody.description@component"), "content": {"application/json": {"schema": {"type": "object", "properties": {"y": {"type": "integer"}}}}}}},
+        "headers": {C("Components.headers.key"): {"description": C("Header.description@component"), "schema": {"type": "string"}}},
+        "examples": {C("Components.examples.key"): {"summary": C("Example.summary@component"), "value": C("Example.value@component")}},
+        "links": {C("Components.links.key"): {"operationId": C("Link.operationId@component"), "parameters": {C("Link.parameters.key"): C("Link.parameters.value")}, "requestBody": C("Link.requestBody")}},
+        "callbacks": {C("Components.callbacks.key"): {"{$url}": {"get": {"responses": ok("component-callback")}}}},
+    }
+
+
 def _build_a(C):
     model_name = C("Components.schemas.key@model-titled")
     enum_name = C("Components.schemas.key@enum-titled")
@@ -227,9 +281,10 @@ def _build_a(C):
             "example": C("Schema.example@model"),
             "externalDocs": {"url": C("ExternalDocumentation.url@schema"), "description": C("ExternalDocumentation.description@schema")},
             "xml": {"name": C("XML.name"), "namespace": C("XML.namespace"), "prefix": C("XML.prefix")},
-            "required": [req_name],
+            "required": [req_name, C("Schema.required.item@unmatched")],
+            **_x(C, "Schema", "model"),
             "properties": {
-                pname: {"type": "string", "title": C("Schema.title@prop"), "description": C("Schema.description@prop"), "default": C("Schema.default@prop-string"),
+                pname: {**_x(C, "Schema", "prop"), "type": "string", "title": C("Schema.title@prop"), "description": C("Schema.description@prop"), "default": C("Schema.default@prop-string"),
                         "example": C("Schema.example@prop"), "pattern": C("Schema.pattern"), "format": C("Schema.format")},
                 req_name: {"type": "integer", "description": C("Schema.description@prop-required")},
                 "e": {"type": "string", "enum": [C("Schema.enum.item@model-prop"), "other", C("Schema.enum.item@model-prop-positional", "1{}")], "description": C("Schema.description@enum-prop"), "title": C("Schema.title@enum-prop")},
@@ -290,9 +345,13 @@ def _build_a(C):
                               "content": {"application/json; b=" + C("Response.content.key@param"): {"schema": _ref(model_name)}}},
                       "404": {"description": C("Response.description@404"), "content": {"text/plain": {"schema": {"type": "string", "description": C("Schema.description@response")}}}}},
     }
-    return {
+    bare_paths, bare_components = _bare_paths(C)
+    comp_param = C("Components.parameters.key")
+    return _add_leaf_extensions(C, model_name, other_name, sec_name, {
         "openapi": "3.1.0",
-        "info": {"title": C("Info.title"), "version": C("Info.version"), "description": C("Info.description"), "termsOfService": C("Info.termsOfService"),
+        **_x(C, "OpenAPI"),
+        "security": [{C("OpenAPI.security.item.key"): [C("OpenAPI.security.item.item")]}],
+        "info": {**_x(C, "Info"), "title": C("Info.title"), "version": C("Info.version"), "description": C("Info.description"), "termsOfService": C("Info.termsOfService"),
                  "contact": {"name": C("Contact.name"), "url": C("Contact.url"), "email": C("Contact.email")},
                  "license": {"name": C("License.name"), "url": C("License.url")}},
         "servers": [{"url": C("Server.url"), "description": C("Server.description"),
@@ -300,19 +359,58 @@ def _build_a(C):
         "tags": [{"name": tag, "description": C("Tag.description"), "externalDocs": {"url": C("ExternalDocumentation.url@tag")}}, {"name": C("Tag.name@unused")}],
         "externalDocs": {"url": C("ExternalDocumentation.url@root"), "description": C("ExternalDocumentation.description@root")},
         "paths": {"/p/{pp}/" + C("OpenAPI.paths.key"): {"summary": C("PathItem.summary"), "description": C("PathItem.description"), "post": op},
-                  **_shape_paths(C),
+                  **_shape_paths(C, comp_param),
                   **_default_paths(C),
+                  **bare_paths,
                   "/" + C("OpenAPI.paths.key@noparams"): {"post": {"tags": [C("Operation.tags.item@second")], "operationId": C("Operation.operationId@second"),
                                                           "requestBody": {"content": {"application/json": {"schema": {"type": "object", "properties": {"q": {"type": "string"}}}}}},
                                                           "responses": {"200": {"description": C("Response.description@second"),
                                                                                 "content": {"application/json": {"schema": {"type": "array", "items": _ref(model_name)}}}}}}}},
         "components": {"schemas": schemas,
-                       "parameters": {"SharedShape": {"name": C("Parameter.name@component"), "in": "query", "schema": {"type": "string"}}},
+                       "parameters": {comp_param: {"name": C("Parameter.name@component"), "in": "query", "description": C("Parameter.description@component"), "schema": {"type": "string"}}},
+                       **bare_components, **_x(C, "Components"),
                        "securitySchemes": {sec_name: {"type": "apiKey", "name": C("SecurityScheme.name"), "in": "header", "description": C("SecurityScheme.description"),
                                                       "scheme": C("SecurityScheme.scheme"), "bearerFormat": C("SecurityScheme.bearerFormat"), "openIdConnectUrl": C("SecurityScheme.openIdConnectUrl")},
+                                           "free": {"type": C("SecurityScheme.type"), "in": C("SecurityScheme.in"), "name": "n", **_x(C, "SecurityScheme")},
                                            "oa": {"type": "oauth2", "flows": {"implicit": {"authorizationUrl": C("OAuthFlow.authorizationUrl"), "tokenUrl": C("OAuthFlow.tokenUrl"),
                                                                                           "refreshUrl": C("OAuthFlow.refreshUrl"), "scopes": {C("OAuthFlow.scopes.key"): C("OAuthFlow.scopes.value")}}}}}},
-    }
+    })
+
+
+def _add_leaf_extensions(C, model_name, other_name, sec_name, doc):
+    """x- extension values on the leaf objects of the document, and the few remaining free-text positions."""
+    def ext(obj, cls, pos=""):
+        obj.update(_x(C, cls, pos))
+    info = doc["info"]
+    ext(info["contact"], "Contact"); ext(info["license"], "License")
+    srv = doc["servers"][0]
+    ext(srv, "Server")
+    for v in srv["variables"].values():
+        ext(v, "ServerVariable")
+    ext(doc["tags"][0], "Tag")
+    ext(doc["externalDocs"], "ExternalDocumentation")
+    schemas = doc["components"]["schemas"]
+    ext(schemas[model_name]["xml"], "XML")
+    ext(schemas[other_name]["discriminator"], "Discriminator")
+    op = next(iter(doc["paths"].values()))["post"]
+    op["security"].append({C("Operation.security.item.key@unknown-scheme"): []})
+    media = next(iter(op["requestBody"]["content"].values()))
+    enc = next(iter(media["encoding"].values()))
+    ext(enc, "Encoding")
+    enc["headers"] = {C("Encoding.headers.key"): {"schema": {"type": "string"}}}
+    r200 = op["responses"]["200"]
+    hdr = next(iter(r200["headers"].values()))
+    ext(hdr, "Header")
+    hdr["content"] = {C("Header.content.key"): {"schema": {"type": "string"}}}
+    del hdr["schema"]
+    ext(next(iter(r200["links"].values())), "Link")
+    ex = next(iter(op["parameters"][1]["examples"].values()))
+    ext(ex, "Example")
+    op["parameters"][-1]["schema"].update(_x(C, "Reference"))        # a Reference object with an extension
+    flows = doc["components"]["securitySchemes"]["oa"]["flows"]
+    ext(flows, "OAuthFlows"); ext(flows["implicit"], "OAuthFlow")
+    doc["paths"]["/ref-item"] = {"$ref": C("PathItem.$ref"), "get": {"responses": {"200": {"description": C("Response.description@ref-item")}}}}
+    return doc
 
 
 def _build_b(C):
@@ -345,7 +443,7 @@ def _build_b(C):
         },
     }
     shared_param = {"name": C("Parameter.name@header"), "in": "header", "required": True, "description": C("Parameter.description@header"), "schema": {"type": "integer"}}
-    return {
+    doc_b = {
         "openapi": "3.0.3",
         "info": {"title": C("Info.title"), "version": C("Info.version"), "description": C("Info.description")},
         "paths": {
@@ -370,6 +468,10 @@ def _build_b(C):
         },
         "components": {"schemas": schemas, "parameters": {"Shared": shared_param}},
     }
+    doc_b["paths"]["/bare-b"] = {"summary": C("PathItem.summary@bare"), "description": C("PathItem.description@bare"),
+                                 "parameters": [{"name": "bq", "in": "query", "description": C("Parameter.description@bare-pathitem"), "schema": {"type": "string"}}],
+                                 "delete": {"responses": {"204": {"description": C("Response.description@bare")}}}}
+    return doc_b
 
 
 # ---------------------------------------------------------------------------------------------- scanning generated files
@@ -584,6 +686,8 @@ def schema_str_fields():
         seen.add(c)
         for fname, f in c.model_fields.items():
             visit(c, f.alias or fname, f.annotation)
+        if c.model_config.get("extra") == "allow":
+            out.add(f"{c.__name__}.x-ext")     # specification extensions: any x- key with a string value
     return out, odd
 
 
